@@ -60,7 +60,7 @@ def main() -> int:
                 st = selftest(prop, args.repo, base)
                 ctx.selftest = st
                 if not st["ok"]:
-                    return finish(ctx, explanation.strip(), level, t0, error=f"self-test of the checker failed: missed variants {st['missed']}, format twin {st['twin']}")
+                    return finish(ctx, explanation.strip(), level, t0, error=f"self-test of the checker failed: missed variants {st['missed']}, format twin {st['twin']}, refactoring sets raising an alarm {st.get('alarms')}")
         return finish(ctx, explanation.strip(), level, t0)
     except AnalysisError as e:
         if ctx is None:
